@@ -12,7 +12,7 @@ import (
 
 func C19(tier string) int {
 	states := []string{"greeted", "auth", "selected", "idle", "literal", "inflight", "held"}
-	actions := []string{"logout", "drop", "removeuser", "close"}
+	actions := []string{"logout", "logout-pipelined", "drop", "removeuser", "close"}
 	var cases []any
 	for _, a := range actions {
 		for _, s1 := range states {
@@ -53,6 +53,12 @@ func C19(tier string) int {
 			for _, td := range tds {
 				cc = append(cc, teardown.ConcCase{Cmd1: c1, Teardown: td, Bound: 2, Hold: true})
 			}
+		}
+	}
+	// pipelined variant: further commands of session 1 are already in the command reader's hands
+	for _, c1 := range cmd1 {
+		for _, td := range tds {
+			cc = append(cc, teardown.ConcCase{Cmd1: c1, Teardown: td, Bound: bound, Pipe: true})
 		}
 	}
 	for _, c1 := range cmd1 {
